@@ -60,6 +60,11 @@ pub fn parse_entries(s: &str) -> Vec<Entry> {
     if s == "-" {
         return Vec::new();
     }
+    if let Some(n) = s.strip_prefix('R') {
+        // shorthand for a long, regular, valid list (only understood by the implementation side: direct oracles)
+        let n = unhex_u64(n);
+        return (0..n).map(|i| Entry { tile_id: 3 * i + 1, offset: 5 * i, length: 5, run_length: 1 + (i % 2) as u32 }).collect();
+    }
     s.split(',').map(parse_entry).collect()
 }
 pub fn nums_tok(v: &[u64]) -> String {
